@@ -110,6 +110,41 @@ def m_Decimal(value="0", context=None):
 rt.MODELS[decimal.Decimal] = m_Decimal
 
 
+def m_create_decimal(cx, value="0"):
+    """Context.create_decimal: like Decimal(value), then rounded to the context's precision (half-even only)"""
+    if not isinstance(value, Sym):
+        return cx.create_decimal(value)
+    if not cx.traps[decimal.InvalidOperation]:
+        raise Unsupported("create_decimal in a context that does not trap InvalidOperation")
+    d = m_Decimal(value)
+    if not isinstance(d, SymDec):
+        return cx.create_decimal(d)
+    eng = E()
+    prec = cx.prec
+    if eng.branch(d.coef < 10 ** prec):
+        return d                                    # fits: exact
+    if cx.rounding != decimal.ROUND_HALF_EVEN:
+        raise Unsupported("create_decimal rounding mode")
+    k = 1
+    while not eng.branch(d.coef < 10 ** (prec + k)):
+        k += 1
+        if k > 40:
+            raise Unsupported("coefficient too long")
+    p = 10 ** k
+    qd = d.coef / p
+    r = d.coef - qd * p
+    half = p // 2
+    up = z3.Or(r > half, z3.And(r == half, qd % 2 == 1))
+    coef = z3.If(up, qd + 1, qd)
+    exp = d.exp + k
+    if eng.branch(coef >= 10 ** prec):              # 999...9 rounded up: one digit more, renormalised
+        return SymDec(d.neg, coef / 10, exp + 1)
+    return SymDec(d.neg, z3.simplify(coef), exp)
+
+
+rt.CONC_METHODS[(decimal.Context, 'create_decimal')] = m_create_decimal
+
+
 def _ndigits(coef, maxd=40):
     """number of digits of coef (>= 1), forking"""
     eng = E()
